@@ -5,7 +5,8 @@
    (transform.Bytes); the only facts used about them are the two hypotheses
    [codec_rt]/[codec_nz] on NUL-free BMP strings without surrogates.
    pol is uefi.Attributes.ErasePolarity; d is the nesting fuel (any value). *)
-From Fiano Require Import Base.Bytes Gen.Consts Model.Nvar Proofs.NvarProofs Proofs.NvarCompactProofs.
+From Fiano Require Import Base.Bytes Gen.Consts Model.Nvar Proofs.NvarProofs Proofs.NvarCompactProofs
+     Proofs.NvarReparseProofs Proofs.NvarCheckers Proofs.NvarCodecProofs Proofs.NvarInvalidateProofs.
 Open Scope Z_scope.
 
 Definition codec_rt (dec16 enc16 : bytes -> bytes) : Prop :=
@@ -54,15 +55,54 @@ Theorem C10_compact_spec : forall enc16 pol d s,
 Proof. exact compact_spec. Qed.
 Print Assumptions C10_compact_spec.
 
-(* invalidating a name, then compacting: exactly the live variables with another name remain *)
+(* invalidating a variable by name, then compacting: exactly the live variables
+   with another name remain (all versions of the named one are gone) *)
 Theorem C10_invalidate_then_compact : forall enc16 pol d n s,
-  chains_ok (s_entries s) -> compact_fits enc16 pol (invalidate n s) ->
+  chains_ok (s_entries s) -> compact_fits enc16 pol s ->
   exists st', compact_store enc16 pol (S d) (invalidate n s) = Ok st' /\
     s_len st' = s_len s /\
     live st' = filter (fun t => negb (bytes_eqb (snd (fst t)) n)) (live s) /\
     Forall full_tail (s_entries st').
-Proof. exact invalidate_then_compact. Qed.
+Proof. exact invalidate_then_compact_full. Qed.
 Print Assumptions C10_invalidate_then_compact.
+
+(* the compacted bytes re-parse to that same set: same live variables, only Full
+   entries, same Length and GUID table *)
+Theorem C10_compact_reparse : forall dec16 enc16, codec_rt dec16 enc16 -> codec_nz dec16 ->
+  forall pol s, chains_ok (s_entries s) -> compact_fits enc16 pol s -> reparse_ok dec16 enc16 pol s ->
+  exists st2, parse_store dec16 pol (s_buf (compacted enc16 pol s)) = Ok st2 /\
+    live st2 = live s /\ Forall full_tail (s_entries st2) /\
+    s_len st2 = s_len s /\ s_guids st2 = s_guids (compacted enc16 pol s) /\
+    s_buf st2 = s_buf (compacted enc16 pol s).
+Proof. exact compact_reparse. Qed.
+Print Assumptions C10_compact_reparse.
+
+(* compacting the re-parsed compacted store gives the same bytes again *)
+Theorem C10_compact_idempotent : forall dec16 enc16, codec_rt dec16 enc16 -> codec_nz dec16 ->
+  forall pol d s, chains_ok (s_entries s) -> compact_fits enc16 pol s -> reparse_ok dec16 enc16 pol s ->
+  exists st2, parse_store dec16 pol (s_buf (compacted enc16 pol s)) = Ok st2 /\
+    compact_store enc16 pol (S d) st2 = Ok (compacted enc16 pol st2) /\
+    s_buf (compacted enc16 pol st2) = s_buf (compacted enc16 pol s).
+Proof. exact compact_idempotent. Qed.
+Print Assumptions C10_compact_idempotent.
+
+(* the side conditions are decidable on a concrete parsed store *)
+Theorem C10_side_conditions_decidable : forall dec16 enc16 pol s,
+  (chains_okb (s_entries s) = true -> chains_ok (s_entries s)) /\
+  (compact_fitsb enc16 pol s = true -> compact_fits enc16 pol s) /\
+  (reparse_okb dec16 enc16 pol s = true -> reparse_ok dec16 enc16 pol s).
+Proof.
+  exact (fun dec16 enc16 pol s =>
+           conj (chains_okb_sound (s_entries s))
+                (conj (compact_fitsb_sound enc16 pol s) (reparse_okb_sound dec16 enc16 pol s))).
+Qed.
+Print Assumptions C10_side_conditions_decidable.
+
+(* the transcription of golang.org/x/text's UTF-16 transformer that the
+   correspondence run compares with the real one satisfies both hypotheses *)
+Theorem C10_codec_impl : codec_rt dec16_impl enc16_impl /\ codec_nz dec16_impl.
+Proof. exact (conj codec_rt_impl codec_nz_impl). Qed.
+Print Assumptions C10_codec_impl.
 
 (* ---- the concrete transformer satisfies what the examples need; examples ---- *)
 
@@ -141,8 +181,7 @@ Definition rt (pol : Z) (s : astore) : outcome bytes :=
 
 (* first entry linking to itself at offset 0: Next is rewritten as erased *)
 Theorem C10_wf_first_next_needed_refuted : exists s o,
-  wf_store 255 (mkAStore (a_entries s) (a_free s) (a_table s)) = false /\
-  rt 255 s = Ok o /\ o <> emit 255 s.
+  wf_store 255 s = false /\ rt 255 s = Ok o /\ o <> emit 255 s.
 Proof.
   exists (mkAStore [AFull 134 0 (GInline g1) (NAscii [65]) [1]] 2 []). eexists.
   split; [vm_compute; reflexivity|]. split; [vm_compute; reflexivity|]. vm_compute. discriminate.
@@ -174,3 +213,121 @@ Proof.
   vm_compute. reflexivity.
 Qed.
 Print Assumptions C10_wf_no_nested_needed_refuted.
+
+(* ---- compaction on the example; every side condition is needed ---- *)
+
+Definition ex_parsed : nstore := interp dec16_impl 255 ex_store.
+
+Example ex_side_conditions :
+  chains_okb (s_entries ex_parsed) = true /\ compact_fitsb enc16_impl 255 ex_parsed = true /\
+  reparse_okb dec16_impl enc16_impl 255 ex_parsed = true.
+Proof. vm_compute. repeat split; reflexivity. Qed.
+
+(* 4 live variables out of 6 entries; the table is rebuilt in first-use order (g2 before g1) *)
+Example ex_compact :
+  (do st <- compact_store enc16_impl 255 3 ex_parsed;
+   Ok (zlen (s_buf st), s_guids st, map v_type (s_entries st), live st)) =
+  Ok (zlen (emit 255 ex_store), [g2; g1], [4; 4; 4; 4], live ex_parsed).
+Proof. vm_compute. reflexivity. Qed.
+
+Example ex_invalidate_compact :
+  (do st <- compact_store enc16_impl 255 3 (invalidate [83;101;116;117;112] ex_parsed); Ok (live st)) =
+  Ok [ (g3, [66;111;111;116], [7]); (g3, [100;98], [170; 0; 1;2;3;4;5;6;7;8; 11;0]); (g1, [65], []) ].
+Proof. vm_compute. reflexivity. Qed.
+
+Definition recompact (pol : Z) (s : astore) : outcome (list (bytes * bytes * bytes) * list (bytes * bytes * bytes)) :=
+  do st <- parse_store dec16_impl pol (emit pol s);
+  do st' <- compact_store enc16_impl pol 3 st;
+  do st2 <- parse_store dec16_impl pol (s_buf st');
+  Ok (live st, live st2).
+
+(* chains_ok, link agreement: two entries linking to the same data-only entry;
+   the parser names it after the first, compaction after the last *)
+Theorem C10_chain_link_needed_refuted : exists s a b,
+  wf_store 255 s = true /\ recompact 255 s = Ok (a, b) /\ a <> b.
+Proof.
+  exists (mkAStore [ AFull 134 58 (GInline g1) (NAscii [65]) [1];
+                     AFull 134 29 (GInline g2) (NAscii [66]) [2];
+                     AData 136 16777215 [3] ] 4 []).
+  do 2 eexists. split; [vm_compute; reflexivity|]. split; [vm_compute; reflexivity|].
+  vm_compute. discriminate.
+Qed.
+Print Assumptions C10_chain_link_needed_refuted.
+
+(* reparse_ok, extended header: the head has the ExtHeader attribute, the newest
+   data-only entry does not; the rebuilt entry's extended header is garbage and
+   the variable is lost on re-parse *)
+Theorem C10_ext_agreement_needed_refuted : exists s a b,
+  wf_store 255 s = true /\ recompact 255 s = Ok (a, b) /\ a <> b.
+Proof.
+  exists (mkAStore [ AFull 150 40 (GInline g1) (NAscii [65]) [7; 0; 1;2;3;4;5;6;7;8; 11;0];
+                     AData 136 16777215 [3; 200; 200] ] 4 []).
+  do 2 eexists. split; [vm_compute; reflexivity|]. split; [vm_compute; reflexivity|].
+  vm_compute. discriminate.
+Qed.
+Print Assumptions C10_ext_agreement_needed_refuted.
+
+(* compact_fits, room for the table: an index beyond the table reads as the zero
+   GUID, which compaction then adds to a table that has no room: makeslice panics *)
+Theorem C10_fits_needed_refuted : exists s,
+  is_panic (do st <- parse_store dec16_impl 255 (emit 255 s); compact_store enc16_impl 255 3 st) = true.
+Proof.
+  exists (mkAStore [ AFull 130 16777215 (GIndex 3) (NAscii [65]) [1] ] 0 []).
+  vm_compute. reflexivity.
+Qed.
+Print Assumptions C10_fits_needed_refuted.
+
+(* compact_fits, rebuilt entry below 2^16 bytes: a 40 kB name plus a 30 kB newest
+   value; Size wraps in the rebuilt header and the compacted store no longer parses *)
+Definition reparses (pol : Z) (s : astore) : outcome bool :=
+  do st <- parse_store dec16_impl pol (emit pol s);
+  do st' <- compact_store enc16_impl pol 3 st;
+  Ok (is_ok (parse_store dec16_impl pol (s_buf st'))).
+
+Theorem C10_fits_size_needed_refuted : exists s, wf_store 255 s = true /\ reparses 255 s = Ok false.
+Proof.
+  exists (mkAStore [ AFull 134 40028 (GInline g1) (NAscii (zrepeat 65 40000)) [1];
+                     AData 136 16777215 (zrepeat 7 30000) ] 4 []).
+  split; vm_compute; reflexivity.
+Qed.
+Print Assumptions C10_fits_size_needed_refuted.
+
+(* compact_fits, at most 255 table GUIDs: 255 indexed GUIDs plus the zero GUID an
+   out-of-range index reads as make 256; index 255 never resolves (the parser's
+   uint8 i+1 wraps), the 256th GUID stays undiscovered and the compacted store
+   does not parse *)
+Theorem C10_fits_table_needed_refuted : exists s, reparses 255 s = Ok false.
+Proof.
+  exists (mkAStore (AFull 130 16777215 (GIndex 255) (NAscii [90]) [0] ::
+                    map (fun j => AFull 130 16777215 (GIndex (Z.of_nat j)) (NAscii [65]) [Z.of_nat j]) (seq 0 255))
+                   32 (map (fun j => Z.of_nat (j + 1) :: zrepeat 0 15) (seq 0 255))).
+  vm_compute. reflexivity.
+Qed.
+Print Assumptions C10_fits_table_needed_refuted.
+
+(* ---- the whole statement read on bytes, for the transcribed transformer: no
+   hypothesis about UTF-16 is left ---- *)
+Theorem C10_bytes_pipeline : forall pol d s,
+  wf_store pol s = true ->
+  let st := interp dec16_impl pol s in
+  chains_ok (s_entries st) -> compact_fits enc16_impl pol st -> reparse_ok dec16_impl enc16_impl pol st ->
+  parse_store dec16_impl pol (emit pol s) = Ok st /\
+  exists st' st2,
+    compact_store enc16_impl pol (S d) st = Ok st' /\
+    zlen (s_buf st') = zlen (emit pol s) /\
+    parse_store dec16_impl pol (s_buf st') = Ok st2 /\
+    live st2 = live st /\ Forall full_tail (s_entries st2) /\
+    exists st3, compact_store enc16_impl pol (S d) st2 = Ok st3 /\ s_buf st3 = s_buf st'.
+Proof. exact (bytes_pipeline dec16_impl enc16_impl codec_rt_impl codec_nz_impl). Qed.
+Print Assumptions C10_bytes_pipeline.
+
+(* its hypotheses hold on the example *)
+Example ex_pipeline_hyps :
+  wf_store 255 ex_store = true /\ chains_ok (s_entries ex_parsed) /\
+  compact_fits enc16_impl 255 ex_parsed /\ reparse_ok dec16_impl enc16_impl 255 ex_parsed.
+Proof.
+  split; [vm_compute; reflexivity|].
+  split; [apply chains_okb_sound; vm_compute; reflexivity|].
+  split; [apply compact_fitsb_sound; vm_compute; reflexivity|].
+  apply reparse_okb_sound; vm_compute; reflexivity.
+Qed.
